@@ -95,3 +95,9 @@ Theorem C02_blockwise_recovers_gain_offset b kh kw bs a c rc na nb cfill i j :
   exists p, fit_px Fit.MGainOffset (block_image b rc) kh kw na nb None cfill i j = Some p /\ feqv (p_gain p) (Fin a) /\ feqv (p_off p) (Fin c).
 Proof. intros A B C D E. exact (blockwise_recovers_gain_offset b kh kw A B bs C D a c E rc na nb cfill i j). Qed.
 Print Assumptions C02_blockwise_recovers_gain_offset.
+(* ---- the block normalisation the gain-blk-offset recovery theorems assume (norm_blk: an increasing affine map for every block with two distinct jointly valid values) is what the CURRENT source computes for every block, however few jointly valid pixels it holds *)
+From HVgen Require Import Formulas.
+From HV Require Import Tie.FormulaTie.
+Theorem C02_source_block_norm : gen_block_norm_ok = true.
+Proof. exact tie_block_norm. Qed.
+Print Assumptions C02_source_block_norm.
